@@ -3,7 +3,9 @@
    Print Assumptions beneath.  Texts and buffers are lists of bytes ([N]); a
    model function returns (return code, bytes written to the destination). *)
 From UV Require Import Lib.Base Model.Inet Spec.InetSpec Proofs.InetProofs4 Proofs.InetProofs6
-  Proofs.InetProofs6rt Proofs.InetProofs6shape Proofs.InetProofs4c Proofs.InetProofsZone.
+  Proofs.InetProofs6rt Proofs.InetProofs6shape Proofs.InetProofs4c Proofs.InetProofsZone
+  Proofs.InetProofs6c Proofs.InetProofs6s Proofs.InetProofs6g
+  Proofs.InetProofs6k.
 Local Open Scope N_scope.
 
 (* inet_pton4 accepts exactly the dotted-quad grammar (four decimal octets
@@ -107,6 +109,52 @@ Theorem C18_ntop6_exact :
   (nlen text + 1 <= size -> inet_ntop6 a size = (0%Z, text ++ [0])).
 Proof. exact ntop6_spec. Qed.
 Print Assumptions C18_ntop6_exact.
+
+(* all 2^128 addresses: uv_inet_ntop prints exactly the canonical text of the
+   independent printer spec_print6 (lower-case hex without leading zeros, the
+   longest run of >= 2 zero groups - leftmost on ties - as "::", dotted-quad
+   tail for ::a.b.c.d and ::ffff:a.b.c.d) *)
+Theorem C18_ntop6_canonical :
+  forall a size,
+  bytes16 a -> 46 <= size ->
+  uv_inet_ntop AF_INET6 a size = (0%Z, spec_print6 a (words_of a) ++ [0]).
+Proof. exact ntop6_canonical. Qed.
+Print Assumptions C18_ntop6_canonical.
+
+(* Soundness of inet_pton6 with respect to the RFC 4291 section 2.2 grammar and
+   its value function (Spec/InetSpec.v, ip6_text): whatever is accepted is a
+   text of the grammar (h16 groups of 1..4 hex digits, at most one "::" standing
+   for >= 1 zero groups, optional dotted-quad tail) and the sixteen bytes
+   produced are the grammar's value.  Every input, no bound. *)
+Theorem C18_pton6_sound :
+  forall s b, inet_pton6 s = (0%Z, b) -> ip6_text s b.
+Proof. exact pton6_sound. Qed.
+Print Assumptions C18_pton6_sound.
+
+(* the same through the public entry point: the text is the C string up to its
+   first NUL, without an optional "%zone" suffix *)
+Theorem C18_uv_inet_pton_v6_sound :
+  forall src b,
+  uv_inet_pton AF_INET6 src = (0%Z, b) ->
+  exists a, ip6_text a b /\ (cstr src = a \/ exists z, cstr src = a ++ 37 :: z).
+Proof. exact uv_inet_pton6_sound. Qed.
+Print Assumptions C18_uv_inet_pton_v6_sound.
+
+(* inet_pton6 accepts exactly the RFC 4291 grammar and produces its value:
+   soundness above plus completeness (every text of the grammar - any case,
+   leading zeros, "::" for any run of >= 1 zero groups, dotted-quad tail - is
+   accepted with the grammar's value).  Every input, no bound. *)
+Theorem C18_pton6_iff_grammar :
+  forall s b, inet_pton6 s = (0%Z, b) <-> ip6_text s b.
+Proof. exact pton6_iff_grammar. Qed.
+Print Assumptions C18_pton6_iff_grammar.
+
+(* corollary: for each of the 2^128 addresses the canonical text is a text of
+   the grammar denoting that address *)
+Theorem C18_canonical_text_in_grammar :
+  forall a, bytes16 a -> ip6_text (text6 a) a /\ inet_pton6 (text6 a) = (0%Z, a).
+Proof. exact canonical_in_grammar. Qed.
+Print Assumptions C18_canonical_text_in_grammar.
 
 (* inet_pton6 / uv_inet_pton(AF_INET6), every input: either UV_EINVAL and the
    destination untouched, or 0 and exactly sixteen bytes (the tp/endp/colonp
